@@ -1,7 +1,7 @@
 """Shared check of synthesized implementations (C02 Streett, C05 Rabin)."""
 import sys
 
-from vlib import core, games, gen_games, gr1games, transducers
+from vlib import bits_gen, core, games, gen_games, gr1games, transducers
 from vlib.core import Broken, Mismatch, Failing
 from vlib.gr1games import MODES, QINITS
 from props import c03
@@ -43,6 +43,7 @@ class ImplCheck:
     def prove(self, ctx):
         with ctx.coq_lock():
             gen_games.ensure_transducers(ctx)
+            bits_gen.ensure_bits(ctx)
             ctx.prove_with_deps(self.PROOF_FILES[-1])
         ctx.trusted.append(self.model_note)
         ctx.assumptions.append(
